@@ -49,7 +49,162 @@ def try_replay(doc, repo, verif):
             os.unlink(tf.name)
         v['recipe'] = 'proof harness compiled natively, nondeterministic choices taken from the counterexample'
         return v
+    if kind == 'r2':
+        v = _r2(doc, repo, verif)
+        if not v.get('reproduced') and rp.get('fallback_program'):
+            v2 = try_replay(dict(doc, replay={'kind': 'program', 'program': rp['fallback_program'], 'defines': ['CAT_UNSOLICITED_CMD_BUFFER_SIZE=2'] if rp['fallback_program'] == 'f3.c' else []}), repo, verif)
+            if v2.get('reproduced'):
+                v2['output'] = '[state injection did not reproduce: %s]\n' % v.get('output', '')[-300:] + v2.get('output', '')
+                return v2
+        return v
     return {'ran': False, 'reproduced': False, 'output': 'unknown replay kind %r' % kind}
+
+
+_ARRAYS = ('h_cmds', 'h_vars', 'h_names', 'h_descr', 'h_vnames', 'h_grp', 'h_grp_ptrs', 'h_buf', 'h_ubuf', 'h_crlf', 'h_vdata', 'g_typed', 'g_oldbuf', 'g_oldubuf')
+_STRUCTS = ('h_desc', 'h_io', 'h_mutex', 'h_obj')
+_FUNCS = ('e_cmd_write', 'e_cmd_read', 'e_cmd_run', 'e_cmd_test', 'e_var_write', 'e_var_read', 'e_io_read', 'e_io_write', 'e_lock', 'e_unlock')
+
+
+def _c_value(name, data, binary, width):
+    import re
+    if name == 'pointer':
+        d = data.strip()
+        if 'NULL' in d:
+            return 'NULL'
+        d = re.sub(r'\(\([^()]*\*\)\)', '', d)          # leading casts
+        d = re.sub(r'\[(\d+)l\]', r'[\1]', d)
+        d = re.sub(r'^\(+|\)+$', '', d) if d.count('(') != d.count(')') else d
+        base = re.match(r'^&?([A-Za-z_][A-Za-z_0-9]*)', d)
+        if not base:
+            return None
+        b = base.group(1)
+        if b in _FUNCS:
+            return b
+        if b in _STRUCTS:
+            return d if d.startswith('&') else '&' + d
+        if b in _ARRAYS:
+            return d
+        return None
+    if binary and width:
+        v = int(binary, 2)
+        if name in ('integer', 'signedbv') or True:
+            return '0x%xULL' % v
+    return None
+
+
+def _implies_to_c(expr):
+    # CBMC's A ==> B (weaker than ||, right associative) written as plain C, recursively inside parentheses
+    out, i, n = [], 0, len(expr)
+    parts, cur, depth = [], '', 0
+    while i < n:
+        ch = expr[i]
+        if ch == '(':
+            # find matching paren, transform the inside
+            k, d = i + 1, 1
+            while k < n and d:
+                d += (expr[k] == '(') - (expr[k] == ')')
+                k += 1
+            cur += '(' + _implies_to_c(expr[i + 1:k - 1]) + ')'
+            i = k
+            continue
+        if expr.startswith('==>', i):
+            parts.append(cur)
+            cur = ''
+            i += 3
+            continue
+        if ch in '"\'':
+            k = i + 1
+            while k < n and expr[k] != ch:
+                k += 2 if expr[k] == '\\' else 1
+            cur += expr[i:k + 1]
+            i = k + 1
+            continue
+        cur += ch
+        i += 1
+    parts.append(cur)
+    res = parts[-1]
+    for a in reversed(parts[:-1]):
+        res = '(!(%s) || (%s))' % (a, res)
+    return res
+
+
+def _rewrite_old(expr):
+    # OLD(e) -> e evaluated on the snapshot of the object and on an empty log
+    out, i = '', 0
+    while True:
+        j = expr.find('OLD(', i)
+        if j < 0:
+            return out + expr[i:]
+        out += expr[i:j]
+        k, depth = j + 4, 1
+        while k < len(expr) and depth:
+            depth += (expr[k] == '(') - (expr[k] == ')')
+            k += 1
+        inner = expr[j + 4:k - 1]
+        import re
+        inner = re.sub(r'\bself\b', '(&g_old)', inner)
+        inner = re.sub(r'\bE\.', 'E0.', inner)
+        out += '(' + inner + ')'
+        i = k
+
+
+def _r2(doc, repo, verif):
+    import re
+    steps = doc.get('trace_assignments') or []
+    if not steps:
+        return {'ran': False, 'reproduced': False, 'output': 'no counterexample trace recorded for this violation'}
+    pre_funcs = ('h_build_descriptor', 'h_build_object', 'h_reset_logs', 'harness', 'h_fill_str', 'h_apply_choices')
+    state = {}
+    envlog = {}
+    for lhs, name, data, binary, width, func in steps:
+        lhs2 = re.sub(r'\[(\d+)l\]', r'[\1]', lhs)
+        if lhs2.startswith(('E.', 'EL.')):
+            if func.startswith('e_'):
+                envlog[lhs2] = (name, data, binary, width)
+            continue
+        if func in pre_funcs and re.match(r'^(h_ix|h_obj|h_cmds|h_vars|h_vdata|h_names|h_descr|h_vnames|h_grp|h_desc|h_buf|h_ubuf|g_typed|g_w|g_k|g_j)\b', lhs2):
+            if '.$pad' in lhs2 or lhs2.endswith(('at_lock', 'at_unlock', 'in_cs')):
+                continue
+            state[lhs2] = (name, data, binary, width)
+    lines = []
+    skipped = 0
+    for lhs, (name, data, binary, width) in list(state.items()) + [(k, v) for k, v in envlog.items() if re.match(r'^(E\.(rd_avail|rd_ch|wr_ok|h_ret|v_ret|in_event)|EL\.(lock_ret|unlock_ret))$', k)]:
+        cv = _c_value(name, data, binary, width)
+        if cv is None or name in ('struct', 'array', 'pointer', 'unknown'):
+            skipped += (name != 'pointer' and name != 'unknown')   # pointers are rebuilt from the injected choice indices
+            continue
+        lines.append('        %s = (__typeof__(%s))(%s);' % (lhs, lhs, cv))
+    expr = doc.get('clause_text', '')
+    m = re.search(r'__CPROVER_ensures\((.*)\)\s*$', expr.strip())
+    if not m:
+        return {'ran': False, 'reproduced': False, 'output': 'failed obligation is not a contract clause (memory-safety / frame obligations are replayed by running the step under ASan only)', 'recipe': 'state injection'} if False else _r2_run(doc, repo, verif, lines, '1', skipped)
+    return _r2_run(doc, repo, verif, lines, _implies_to_c(_rewrite_old(m.group(1))), skipped)
+
+
+def _r2_run(doc, repo, verif, lines, clause, skipped):
+    d = tempfile.mkdtemp(prefix='cat_r2.', dir='/var/tmp')
+    try:
+        open(os.path.join(d, 'native_state.inc'), 'w').write('\n'.join(lines) + '\n')
+        open(os.path.join(d, 'native_clause.inc'), 'w').write(clause + '\n')
+        fn = doc.get('enforce') or 'cat_service'
+        defs = ['NATIVE_REPLAY', 'NATIVE_FN_' + fn] + [x for x in doc.get('job_defines', []) if not x.startswith(('JOB_', 'API_CALL'))]
+        call = [x for x in doc.get('job_defines', []) if x.startswith('API_CALL=')]
+        if call:
+            return {'ran': False, 'reproduced': False, 'output': 'state injection is implemented for the two step functions only', 'recipe': 'state injection'}
+        exe = os.path.join(d, 'r2')
+        cmd = ['clang', '-g', '-O0', '-fsanitize=address,undefined', '-fno-sanitize-recover=undefined', '-w', '-I' + d, '-I' + os.path.join(repo, 'src'),
+               '-I' + os.path.join(verif, 'contracts'), '-I' + os.path.join(verif, 'harness')] + ['-D' + x for x in defs] + ['-DE0=G_ZERO', os.path.join(verif, 'harness', 'l1_native.c'), '-o', exe]
+        p = subprocess.run(cmd, stdout=subprocess.PIPE, stderr=subprocess.STDOUT, timeout=120)
+        if p.returncode != 0:
+            return {'ran': False, 'reproduced': False, 'output': 'native build failed: ' + p.stdout.decode('utf-8', 'replace')[-1200:], 'recipe': 'state injection'}
+        p = subprocess.run([exe], stdout=subprocess.PIPE, stderr=subprocess.STDOUT, timeout=60)
+        out = p.stdout.decode('utf-8', 'replace')
+        return {'ran': True, 'reproduced': p.returncode != 0, 'exit': p.returncode, 'output': ('%d pre-state assignments injected (%d skipped)\n' % (len(lines), skipped)) + out[-2500:],
+                'recipe': 'state injection: counterexample pre-state written into the real objects, real %s called with the recorded environment choices, clause re-evaluated natively' % fn}
+    except subprocess.TimeoutExpired:
+        return {'ran': False, 'reproduced': False, 'output': 'native replay timed out', 'recipe': 'state injection'}
+    finally:
+        shutil.rmtree(d, ignore_errors=True)
 
 
 def replay_file(path, repo, verif):
